@@ -157,6 +157,14 @@ func check(c Case, o *stats.Obs) error {
 	if !inCRC {
 		o.Class("fault-in-payload-only")
 	}
+	for i := 3; i+7 <= len(v); i++ {
+		if v[i] == 0xD3 && v[i+1]&0xFC == 0 {
+			if l := ref.DeclaredLength(v[i:]); l > 0 && i+l+6 <= len(v) && ref.ValidFrame(v[i:i+l+6]) {
+				o.Class("valid-frame-embedded-in-the-victim")
+				break
+			}
+		}
+	}
 	return nil
 }
 
@@ -210,7 +218,31 @@ func gen1(t *rapid.T) Case {
 	}
 	n := len(s.Segs[victim].Data)
 	var faults []Fault
-	switch rapid.IntRange(0, 5).Draw(t, "faultKind") {
+	kind := rapid.IntRange(0, 6).Draw(t, "faultKind")
+	if kind == 6 && n < 3+7+1 {
+		kind = 3
+	}
+	switch kind {
+	case 6: // a complete, CRC-valid smaller frame stamped over part of the victim's payload / CRC
+		var stamp []byte
+		for try := 0; try < 4; try++ {
+			stamp = gen.ValidFrame(t, n-3-6)
+			if len(stamp) <= n-3 {
+				break
+			}
+		}
+		if len(stamp) > n-3 {
+			stamp = enc.Frame([]byte{0x3e})
+		}
+		off := rapid.IntRange(3, n-len(stamp)).Draw(t, "stampAt")
+		for i, b := range stamp {
+			if x := s.Segs[victim].Data[off+i] ^ b; x != 0 {
+				faults = append(faults, Fault{Off: off + i, Xor: x})
+			}
+		}
+		if len(faults) == 0 {
+			faults = []Fault{{Off: n - 1, Xor: 1}}
+		}
 	case 0: // single bit
 		faults = []Fault{{Off: rapid.IntRange(3, n-1).Draw(t, "off"), Xor: 1 << uint(rapid.IntRange(0, 7).Draw(t, "bit"))}}
 	case 1: // one CRC byte
